@@ -104,6 +104,29 @@ def corruptions(rng, wf):
     return out
 
 
+def overlapping_reference_shapes():
+    """workflows in which ONE node refers to the same producer at several granularities under different keys (a whole
+    stage, one of its outputs, a field of that output; through input, wait_for and the output tree): every reference
+    is a dependency of its own, whatever order the keys are visited in"""
+    from vlib import tlist
+    out = []
+    a = {'kind': 'plugin', 'pstep': 'work', 'fields': {'input': tmap({'id': lit('a')})}}
+    for variant in range(4):
+        bf = {'input': tmap({'id': lit('b'), 'deps': tmap({'tok': ref('steps.a.outputs.success.tok'), 'obj': ref('steps.a.outputs.success')})})}
+        if variant in (0, 2):
+            bf['wait_for'] = ref('steps.a.outputs')
+        if variant in (1, 2):
+            bf['input']['kids']['deps']['kids']['stage'] = ref('steps.a.outputs')
+        if variant == 3:
+            bf['wait_for'] = tmap({'w1': ref('steps.a.starting'), 'w2': ref('steps.a.starting.started'), 'w3': ref('steps.a.outputs.success.n')})
+        wf = {'steps': {'a': a, 'b': {'kind': 'plugin', 'pstep': 'work', 'fields': bf}},
+              'outputs': {'success': tmap({'whole': ref('steps.a.outputs'), 'one': ref('steps.a.outputs.success'), 'field': ref('steps.a.outputs.success.tok'),
+                                           'b': ref('steps.b.outputs.success.tok')}),
+                          'failure': tmap({'stage': ref('steps.a.outputs'), 'why': ref('steps.a.outputs.error.reason')})}}
+        out.append(wf)
+    return out
+
+
 def prepare_oracle(ctx, wfs, timeout_s=900):
     """Prepare.tla over a batch: returns list of {'accepted': bool, 'nodes': set, 'edges': set} (None on failure) and stats"""
     d = os.path.join(ctx.work, 'prep-%d' % len(os.listdir(ctx.work)))
